@@ -813,11 +813,18 @@ static void gen_sop_case(rng &r, const SopKind &k, bool extra_zones = false)
         cap += n;
     };
     if (extra_zones && r.chance(30)) engage(); // onto the full list of the fresh pool
-    for (size_t i = 0; i < cap + 1; i++) create();
+    puts("ct"); // round 3b: a constructor that throws - on the fresh pool, ...
+    for (size_t i = 0; i < cap + 1; i++)
+    {
+        if (i + 1 == cap) puts("ct"); // ... with one cell left, ...
+        create();
+    }
+    puts("ct"); // ... and on the exhausted pool (nullptr before any constructor runs)
     int n = (int)r.range(5, 60);
     for (int i = 0; i < n; i++)
     {
         if (extra_zones && nzones < 4 && r.chance(8)) engage();
+        else if (r.chance(12)) puts("ct");
         else if (live.empty() || r.chance(50)) create();
         else destroy((size_t)r.below(live.size()));
     }
